@@ -157,6 +157,10 @@ fn check(shape: &Shape, obs: &mut Obs) {
 
 fn run_part(run: &mut Run) {
     let tier = run.tier;
+    if run.part == "sectors-fixed-point" {
+        run.sweep_vec("sectors-fixed-point", "the sectors of the domain in the fixed_point build", || domain(tier).into_iter().filter(|s| matches!(s, Shape::Sector { .. })).collect(), check);
+        return;
+    }
     run.sweep_vec(
         "shapes",
         "Rectangle/Circle/Ellipse/RoundedRectangle(equal+unequal radii)/Sector/Triangle(non-zero area) on listed size, radius, angle and vertex grids at two positions",
@@ -171,7 +175,7 @@ fn main() {
         level: "exploration",
         rule: "every shape of the listed finite domain is evaluated once (cases are distinct by construction, counted by hash); a case is non-trivial when points() or contains() yields at least one point; points() is compared as a sequence with the row-major filter of contains() over bounding_box() grown by 2, plus far probes",
         assumptions: &["contains() is probed on the bounding box grown by 2 pixels and at 6 far points only", "bounded to the listed sizes/angles/vertex grids"],
-        parts: |_| vec![PartSpec::new("all", "verif")],
+        parts: |_| vec![PartSpec::new("all", "verif"), PartSpec::new("sectors-fixed-point", "verif_fp")],
         run_part,
         required_classes: |_| vec!["rect", "circle", "ellipse", "rrect", "sector", "triangle", "empty", "thin"],
         crash_is_verdict: false,
